@@ -389,14 +389,14 @@ Qed.
    defects of the unchanged code (see StripeRefuteProofs): an OFM taller than the IFM (even kernel with full pads), and a
    kernel smaller than (IFM mod stride, or stride), where needed_total_padding clips and the residue test goes wrong *)
 Lemma explicit_geom_ok H Ho k d s t b pad skirt kw sx W ep :
-  1 <= s -> 1 <= d -> 1 <= k -> 1 <= H -> 0 <= t -> 0 <= b -> t < d * (k - 1) + 1 ->
+  1 <= s -> 1 <= d -> 1 <= k -> 1 <= H -> 0 <= t -> 0 <= b -> t < d * (k - 1) + 1 -> b < d * (k - 1) + 1 ->
   d * (k - 1) + 1 <= H + t + b -> Ho = (H + t + b - (d * (k - 1) + 1)) / s + 1 -> Ho <= H ->
   (if H mod s =? 0 then s else H mod s) <= d * (k - 1) + 1 ->
   p_top ep = t -> p_bottom ep = b ->
   calc_padding_and_skirt PAD_EXPLICIT kw (d * (k - 1) + 1) sx s H W ep = Some (pad, skirt) ->
   geom_ok (geom_of H Ho k d s pad skirt) /\ geom_sane (geom_of H Ho k d s pad skirt) /\ p_top pad = t.
 Proof.
-  intros Hs Hd Hk HH Ht Hb Htk Hfit HHo HoH Hm Ept Epb Hc.
+  intros Hs Hd Hk HH Ht Hb Htk Hbk Hfit HHo HoH Hm Ept Epb Hc.
   unfold calc_padding_and_skirt in Hc. cbn in Hc. unfold calc_explicit_padding in Hc. rewrite Ept, Epb in Hc.
   injection Hc as <- <-.
   set (kd := d * (k - 1) + 1) in *. assert (1 <= kd) by (unfold kd; nia).
@@ -427,8 +427,8 @@ Proof.
       destruct (Z.eq_dec r 0) as [->|Hne]; [lia|]. exfalso. apply (mod_neq' r x s); [lia|]. rewrite R2, Hxm. reflexivity. }
   unfold geom_ok, geom_sane, geom_of, g_kd.
   cbn [g_in g_out g_k g_d g_s g_top g_bottom g_sk_t g_sk_b p_top p_bottom]. fold kd.
-  rewrite HoN. fold r. rewrite Hr. unfold x.
-  repeat split; try lia.
+  rewrite HoN. fold r. rewrite Hr. unfold x. clear R3 Hr.
+  repeat split; lia.
 Qed.
 
 (* satisfiable: PAD (1,1) fused into a 3x3 stride-2 convolution on 8 rows *)
